@@ -353,5 +353,127 @@ Proof. exact chain_of_phase_proof. Qed.
 Theorem chain_separately : forall norm maxc, chain_separately_stmt norm maxc.
 Proof. exact chain_separately_proof. Qed.
 
-Print Assumptions chain_of_phase.
+
+(* ------------------------------------------------------------------------------------------ *)
+(* Non-vacuity: the hypotheses of chain_of_phase hold for a concrete connection with TWO requests *)
+(* ------------------------------------------------------------------------------------------ *)
+(* B = 256.  Request 1: Responder, id 1, two variables, Stdin "hello" (padded), a GetValues query in the
+   middle of the stream, Stdin terminator.  Request 2: Filter, id 1 again, Stdin [1;2;3] + terminator,
+   Data [7;8] + terminator.  Then three stray bytes.  Stage 1 reads everything the client sent in one
+   1000-byte read (so requests 1 AND 2 are in the buffer at the first conversion), takes the stream in
+   pieces of 3 and 10 bytes and the GetValues reply; stage 2 starts with a 0-byte call on the reused parser,
+   reads Stdin into the stream buffer, selects Data, reads it and hands back with the Data terminator
+   still unread. *)
+Definition ch_norm (b : bytes) := b.
+Definition ch_pairs : list (bytes*bytes) := [([65;66],[99]); ([67],[])].
+Definition ch_payload := match nv_write_all ch_pairs with Some b => b | None => [] end.
+Definition ch_pre (id role : N) : preamble := mkPreamble [] id role 1 [1;2] [mkPiece [] ch_payload [0]] [] [].
+Definition ch_gv : rcd := mkRcd RT_GetValues 0 [] [].
+Definition ch_c1 : creq := mkCReq (ch_pre 1 ROLE_Responder) ch_pairs [mkRcd RT_Stdin 1 [104;101;108;108;111] [0;0;0]; ch_gv; mkRcd RT_Stdin 1 [] []].
+Definition ch_c2 : creq := mkCReq (ch_pre 1 ROLE_Filter) ch_pairs [mkRcd RT_Stdin 1 [1;2;3] []; mkRcd RT_Stdin 1 [] []; mkRcd RT_Data 1 [7;8] []; mkRcd RT_Data 1 [] []].
+Definition ch_trailing : bytes := [9;9;9].
+Definition ch_wire := flat_map creq_wire [ch_c1;ch_c2] ++ ch_trailing.
+Definition ch_g1 := mkStage [1000] [XC (CParse [] (Some 3)); XC (CParse [] (Some 10)); XC (CConsumeOutput 100)].
+Definition ch_g2 := mkStage [0] [XC (CParse [] None); XC (CConsumeStream 2); XSel RT_Data; XC (CParse [] (Some 10));XC (CConsumeOutput 100)].
+
+Ltac ch_dec :=
+  first [ apply bytes_okb_ok; vm_compute; reflexivity
+        | vm_compute; reflexivity
+        | vm_compute; discriminate ].
+
+Lemma ch_rcd_jrest t id body pad :
+  rcd_ok (mkRcd t id body pad) -> t <> RT_BeginRequest -> (t = RT_GetValues -> body = []) ->
+  jrest (aligned_bufsize 256) (mkRcd t id body pad).
+Proof.
+  intros Hok Ht Hb. split; [exact Hok|]. split; [exact Ht|].
+  intros E _ k. cbn [rt rbody] in *. rewrite (Hb E), take_nil. vm_compute. reflexivity.
+Qed.
+
+Ltac ch_rcd := apply ch_rcd_jrest;
+  [ unfold rcd_ok; cbn [rt rid rbody rpad]; repeat split; ch_dec
+  | vm_compute; discriminate
+  | intros E; first [reflexivity | vm_compute in E; discriminate E] ].
+
+Lemma ch_creq_ok id role rest :
+  0 < id < 65536 -> known_role role = true ->
+  Forall (jrest (aligned_bufsize 256)) rest -> closes_streams role id rest ->
+  creq_ok (aligned_bufsize 256) (mkCReq (ch_pre id role) ch_pairs rest).
+Proof.
+  intros Hid Hrole Hrest Hcl. unfold creq_ok. cbn [c_pre c_pairs c_rest].
+  split.
+  { unfold preamble_ok, ch_pre. cbn [w_idle w_id w_role w_flags w_beginpad w_pieces w_endjunk w_endpad].
+    split; [constructor|]. split; [exact Hid|]. split; [exact Hrole|]. split; [ch_dec|]. split; [ch_dec|].
+    split; [ch_dec|]. split.
+    { constructor; [|constructor]. unfold piece_ok. cbn [pjunk pbody ppad].
+      split; [constructor|]. split; [split; ch_dec|]. split; [ch_dec|]. split; ch_dec. }
+    split; [constructor|]. split; ch_dec. }
+  split. { constructor; [split; ch_dec|]. constructor; [split; ch_dec|constructor]. }
+  split; [ch_dec|].
+  split. { constructor; [ch_dec|]. constructor; [ch_dec|constructor]. }
+  split.
+  { unfold preamble_fits, ch_pre. cbn [w_idle w_pieces w_endjunk]. split; [constructor|]. split; [|constructor].
+    constructor; [|constructor]. cbn [pjunk]. constructor. }
+  split; [exact Hrest|exact Hcl].
+Qed.
+
+Ltac ch_closes := unfold closes_streams; apply Forall_forall; intros sg Hin; vm_compute in Hin;
+  repeat (destruct Hin as [<-|Hin]; [vm_compute; reflexivity|]); contradiction.
+
+Example chain_nonvacuous :
+  256 < SIZE_LIMIT - 8 /\ Forall (creq_ok (aligned_bufsize 256)) [ch_c1; ch_c2] /\
+  length [ch_g1; ch_g2] = length [ch_c1; ch_c2] /\ bytes_ok ch_trailing /\
+  len (flat_map creq_wire [ch_c1; ch_c2] ++ ch_trailing) < SIZE_LIMIT /\
+  chain_legal ch_norm 10 (new_parser 256) (flat_map creq_wire [ch_c1; ch_c2] ++ ch_trailing) [ch_g1; ch_g2].
+Proof.
+  split; [ch_dec|]. split.
+  { constructor; [|constructor; [|constructor]].
+    - apply ch_creq_ok; [split; ch_dec|ch_dec| |ch_closes].
+      constructor; [ch_rcd|]. constructor; [ch_rcd|]. constructor; [ch_rcd|constructor].
+    - apply ch_creq_ok; [split; ch_dec|ch_dec| |ch_closes].
+      constructor; [ch_rcd|]. constructor; [ch_rcd|]. constructor; [ch_rcd|]. constructor; [ch_rcd|constructor]. }
+  split; [reflexivity|]. split; [ch_dec|]. split; [ch_dec|].
+  vm_compute.
+  repeat split; first [ exact I | reflexivity | constructor | (intros Hx; first [discriminate Hx | reflexivity]) ].
+Qed.
+
+(* what the chain does on it (computed): both requests come out as sent, the unread Data terminator and the
+   stray bytes are what the last parser holds *)
+Example chain_instance_run :
+  exists res pe ue,
+    chain_run ch_norm 10 (new_parser 256) (flat_map creq_wire [ch_c1; ch_c2] ++ ch_trailing) [ch_g1; ch_g2]
+      = Some (res, pe, ue) /\
+    map fst res = map (expected ch_norm) [ch_c1; ch_c2] /\
+    map snd res = [ [(Some 5, [104; 101; 108]); (Some 5, [108; 111]); (Some 5, [])];
+                    [(Some 5, []); (Some 5, [1; 2]); (Some 8, [7; 8]); (Some 8, [])] ] /\
+    held pe ++ ue = enc_rcds [mkRcd RT_Data 1 [] []] ++ ch_trailing /\ st pe = Header.
+Proof.
+  assert (H : match chain_run ch_norm 10 (new_parser 256) (flat_map creq_wire [ch_c1; ch_c2] ++ ch_trailing) [ch_g1; ch_g2] with
+              | Some (res, pe, ue) =>
+                map fst res = map (expected ch_norm) [ch_c1; ch_c2] /\
+                map snd res = [ [(Some 5, [104; 101; 108]); (Some 5, [108; 111]); (Some 5, [])];
+                                [(Some 5, []); (Some 5, [1; 2]); (Some 8, [7; 8]); (Some 8, [])] ] /\
+                held pe ++ ue = enc_rcds [mkRcd RT_Data 1 [] []] ++ ch_trailing /\ st pe = Header
+              | None => False
+              end) by (vm_compute; repeat split).
+  destruct (chain_run ch_norm 10 (new_parser 256) (flat_map creq_wire [ch_c1; ch_c2] ++ ch_trailing) [ch_g1; ch_g2])
+    as [[[res pe] ue]|]; [|contradiction].
+  exists res, pe, ue. split; [reflexivity|exact H].
+Qed.
+
+(* ... and the theorem applies to it *)
+Example chain_instance : stream_phase_stmt 10 ->
+  exists res pe ue,
+    chain_run ch_norm 10 (new_parser 256) (flat_map creq_wire [ch_c1; ch_c2] ++ ch_trailing) [ch_g1; ch_g2]
+      = Some (res, pe, ue) /\
+    map fst res = map (expected ch_norm) [ch_c1; ch_c2] /\ st pe = Header /\ cap pe = aligned_bufsize 256.
+Proof.
+  intros HP. destruct chain_nonvacuous as (H1 & H2 & H3 & H4 & H5 & H6).
+  destruct (chain_of_phase ch_norm 10 HP 256 [ch_c1; ch_c2] [ch_g1; ch_g2] ch_trailing H1 H2 H3 H4 H5 H6)
+    as (res & pe & ue & E & Hm & _ & _ & Hs & Hc).
+  exists res, pe, ue. split; [exact E|]. split; [exact Hm|]. split; [exact Hs|exact Hc].
+Qed.
+Print Assumptions chain_nonvacuous.
+Print Assumptions chain_instance_run.
+
 Print Assumptions chain_separately.
+Print Assumptions chain_of_phase.
